@@ -93,6 +93,10 @@ pub struct Rng { pub id: Ghost<int>, pub pos: Ghost<nat>, pub present: Ghost<boo
 pub uninterp spec fn draw(id: int, pos: nat) -> FS;        // field/group element (as dlog) drawn at a position
 pub uninterp spec fn draw_u128(id: int, pos: nat) -> FS;   // image in the field of a u128 drawn at a position
 
+// scalars accepted by `.mul(..)`: F or &F
+pub trait AsFr { spec fn frv(&self) -> FS; }
+impl AsFr for Fr { open spec fn frv(&self) -> FS { self@ } }
+impl AsFr for &Fr { open spec fn frv(&self) -> FS { (**self)@ } }
 impl Fr {
     #[verifier::external_body] pub fn zero() -> (r: Fr) ensures r@ == f_zero() { unimplemented!() }
     #[verifier::external_body] pub fn one() -> (r: Fr) ensures r@ == f_one() { unimplemented!() }
@@ -112,7 +116,7 @@ impl Fr {
 impl G1 {
     #[verifier::external_body] pub fn zero() -> (r: G1) ensures r@ == f_zero() { unimplemented!() }
     #[verifier::external_body] pub fn is_zero(&self) -> (r: bool) ensures r == (self@ == f_zero()) { unimplemented!() }
-    #[verifier::external_body] pub fn mul(self, s: Fr) -> (r: G1) ensures r@ == f_mul(self@, s@) { unimplemented!() }
+    #[verifier::external_body] pub fn mul<S: AsFr>(self, s: S) -> (r: G1) ensures r@ == f_mul(self@, s.frv()) { unimplemented!() }
     #[verifier::external_body] pub fn into_affine(self) -> (r: G1Affine) ensures r@ == self@ { unimplemented!() }
     #[verifier::external_body] pub fn into(self) -> (r: G1Affine) ensures r@ == self@ { unimplemented!() }
     #[verifier::external_body] pub fn rand(rng: &mut Rng) -> (r: G1)
@@ -133,12 +137,12 @@ impl G1Affine {
     #[verifier::external_body] pub fn zero() -> (r: G1Affine) ensures r@ == f_zero() { unimplemented!() }
     #[verifier::external_body] pub fn is_zero(&self) -> (r: bool) ensures r == (self@ == f_zero()) { unimplemented!() }
     #[verifier::external_body] pub fn into_group(self) -> (r: G1) ensures r@ == self@ { unimplemented!() }
-    #[verifier::external_body] pub fn mul(self, s: Fr) -> (r: G1) ensures r@ == f_mul(self@, s@) { unimplemented!() }
+    #[verifier::external_body] pub fn mul<S: AsFr>(self, s: S) -> (r: G1) ensures r@ == f_mul(self@, s.frv()) { unimplemented!() }
     #[verifier::external_body] pub fn into(self) -> (r: G1) ensures r@ == self@ { unimplemented!() }
 }
 impl G2 {
     #[verifier::external_body] pub fn zero() -> (r: G2) ensures r@ == f_zero() { unimplemented!() }
-    #[verifier::external_body] pub fn mul(self, s: Fr) -> (r: G2) ensures r@ == f_mul(self@, s@) { unimplemented!() }
+    #[verifier::external_body] pub fn mul<S: AsFr>(self, s: S) -> (r: G2) ensures r@ == f_mul(self@, s.frv()) { unimplemented!() }
     #[verifier::external_body] pub fn into_affine(self) -> (r: G2Affine) ensures r@ == self@ { unimplemented!() }
     #[verifier::external_body] pub fn rand(rng: &mut Rng) -> (r: G2)
         ensures r@ == draw(old(rng).id@, old(rng).pos@), final(rng).id == old(rng).id, final(rng).pos@ == old(rng).pos@ + 1, final(rng).present == old(rng).present, old(rng).present@ { unimplemented!() }
@@ -147,7 +151,7 @@ impl G2 {
 }
 impl G2Affine {
     #[verifier::external_body] pub fn into_group(self) -> (r: G2) ensures r@ == self@ { unimplemented!() }
-    #[verifier::external_body] pub fn mul(self, s: Fr) -> (r: G2) ensures r@ == f_mul(self@, s@) { unimplemented!() }
+    #[verifier::external_body] pub fn mul<S: AsFr>(self, s: S) -> (r: G2) ensures r@ == f_mul(self@, s.frv()) { unimplemented!() }
     #[verifier::external_body] pub fn into(self) -> (r: G2Prepared) ensures r@ == self@ { unimplemented!() }   // G2Prepared::from
 }
 impl G2Prepared {
@@ -184,3 +188,18 @@ impl E {
 pub fn optional_rng_wrap(rng: Option<&mut Rng>) -> (r: Rng)
     ensures r.present@ == (rng is Some && old(rng->Some_0).present@), rng is Some ==> (r.id == old(rng->Some_0).id && r.pos == old(rng->Some_0).pos)
 { unimplemented!() }
+impl G2 {
+    #[verifier::external_body] pub fn msm_bigint(bases: &[G2Affine], bigints: &[BigInt]) -> (r: G2)
+        ensures r@ == dot(g2views(bases@), bviews(bigints@), min(bases@.len(), bigints@.len())) { unimplemented!() }
+}
+impl G1Prepared {
+    #[verifier::external_body] pub fn from(a: G1Affine) -> (r: G1Prepared) ensures r@ == a@ { unimplemented!() }
+}
+pub open spec fn g1prep_views(s: Seq<G1Prepared>) -> Seq<FS> { Seq::new(s.len(), |i: int| s[i]@) }
+pub open spec fn g2prep_views(s: Seq<G2Prepared>) -> Seq<FS> { Seq::new(s.len(), |i: int| s[i]@) }
+impl E {
+    // E::multi_pairing(a, b): product over zip(a, b) of e(a_i, b_i)  (written additively)
+    #[verifier::external_body]
+    pub fn multi_pairing(a: Vec<G1Prepared>, b: Vec<G2Prepared>) -> (r: GT)
+        ensures r@ == dot(g1prep_views(a@), g2prep_views(b@), min(a@.len(), b@.len())) { unimplemented!() }
+}
